@@ -174,6 +174,10 @@ def run_case(ctx, name, params):
             eps = [r.choice([0.01, 0.1, 0.5, 1.0, 0.25, 2.0]) for _ in range(k)]
         length = r.randint(1, params["max_len"])
         seq = gen_history(r, length, m, kind)
+        if kind in ("pareto", "shared_pareto") and r.random() < 0.2:
+            ks = [r.choice([0, -300, 300, -1000, 900, r.randint(-1000, 900)]) for _ in range(m)]      # exact rescaling per objective
+            seq = [[c[d] * 2.0 ** ks[d] for d in range(m)] + [c[-1]] for c in seq]
+            ctx.count("histories_with_rescaled_objectives")
         if kind in ("epsilon", "default"):
             ok = all(separated(a, b) for a, b in itertools.combinations(seq, 2))
             if not ok:
